@@ -30,3 +30,9 @@ claim("C10",
       "exhaustive enumeration of all RTC counter states (one step each) plus bounded exhaustive latch/access event sequences on the real MBC3 clock against a reference clock",
       "(a) all 134,217,728 counter states get one real one-second step, compared with the reference carry chain; (b) the sub-second count is preset to every value within 16 of the second boundary and 40 real Mapper cycles are run, all five registers observed through latch+read after every cycle, running and halted, plus an un-hooked run across two emulated seconds; (c) every sequence of up to 4 (thorough 6) events over {latch 00/01, select 08-0C or RAM, 10 write values, enable/disable, one cycle, jump to just before the next second} from three start states, with the complete guest-visible clock (fresh latch + five reads on a restored snapshot) compared after every event.",
       "Trusted: ref/rtc.go (Pan Docs MBC3), hooks VRTCGet/VRTCSet/VRTCIncrement/VMBCSave. Latch values other than 00/01 are unspecified and outside the alphabet.")
+
+claim("C11",
+      "exhaustive enumeration of image headers/lengths, control writes, bus accesses and short guest programs on the real code with per-case crash detection (panic recovery + supervised sub-processes)",
+      "Complete products, each case executed on the real emulator: all 256 cartridge-type bytes x ROM/RAM size codes x 15 image-length classes (construction may fail; otherwise the machine must survive window accesses, control writes, clock selectors and CPU cycles); every supported cartridge x every control region x all 256 values x every (region, value-class) second write; full 64 KiB read/write sweeps and DMA from every page with LCD/RAM on and off; every opcode (512 encodings x 8 operand pairs) and all ordered pairs of 55 representative opcodes with pointers, SP and PC in 22 address-region classes on five controller kinds; the 11 undefined opcodes must exit with status 1 and the message (sub-process). A Go panic is recovered per case and reported with a replayable case; a process exit is attributed by the supervisor.",
+      "Level note: the oracle is crash-freedom (no panic / no exit), which is what the statement asks. Programs are bounded to 64 (thorough 2,048) cycles each. Non-termination and memory growth are not observed.",
+      level="fault_enumeration")
